@@ -873,11 +873,11 @@ HOOK_COMMITS = ["5b395c2", "a24d9a3"]
 NOT_YET = {}
 LEVELS = {
     "C02": {"ref": "DESIGN.md 4 C02",
-            "technique": "TLC-enumerated slicing behaviours (MC_slice over Tensor.tla) replayed on the real library",
+            "technique": "TLC-enumerated slicing behaviours (MC_slice over Tensor.tla) replayed on the real library through Slice, SliceInto and Narrow",
             "text": "bounded exhaustive model checking: the complete per-axis argument space of the statement on every source layout, nested to depth 3; every emitted behaviour is executed and every live tensor and backing compared with the specification's state",
-            "note": "bounded (rank<=4, dims<=3..4, steps<=3); empty ranges and negative steps are left open by the statement"},
+            "note": "bounded (rank<=4, dims<=3..4 and up to 7 on rank<=2, steps<=5); empty ranges and negative steps are left open by the statement"},
     "C03": {"ref": "DESIGN.md 4 C03",
-            "technique": "TLC-enumerated transposition programs (MC_trans) replayed in the default and inplacetranspose builds",
+            "technique": "TLC-enumerated transposition programs (MC_trans) replayed in the default and inplacetranspose builds; Level-2 transcription of the in-place algorithm (InplaceT.tla) checked by TLC to refine Level-1 Transpose (MC_inplace)",
             "text": "bounded exhaustive model checking: all programs over T/UT/Transpose/Materialize/SafeT/RollAxis up to length 2-4 for every shape and permutation in bounds, on contiguous, sliced and column-major sources, in two builds and six element sizes; storage order after physical moves is observed through the caller's backing",
             "note": "bounded (rank<=5, dims<=3, length<=4); the algebraic laws of the oracle (composition, inverse, pending consistency) are TLC invariants"},
     "C04": {"ref": "DESIGN.md 4 C04",
@@ -885,11 +885,11 @@ LEVELS = {
             "text": "bounded exhaustive model checking: every view in bounds x every whole-tensor write and copy operation; the specification's heap frame is an action property checked by TLC, and the real library's complete backing storage plus every live tensor is compared with the specification's heap after each behaviour",
             "note": "bounded (rank<=4, dims<=3, views of <=2 steps); sentinel = pairwise distinct cell values"},
     "C13": {"ref": "DESIGN.md 4 C13",
-            "technique": "TLC-enumerated reshape/permutation/slice/repeat/concat argument spaces (MC_shape, MC_slice, MC_assemble) replayed with the shape-only calculators executed next to the operations",
+            "technique": "TLC-enumerated reshape/permutation/slice/repeat/concat argument spaces (MC_shape, MC_slice, MC_assemble) replayed with the shape-only calculators executed next to the operations; Level-2 transcription of the stride arithmetic and the flat iterator (AP.tla, FlatIter.tla) checked by TLC to refine Level 1 (MC_ap) and compared with the real strides",
             "text": "bounded exhaustive model checking: the specification supplies the complete argument spaces and the Level-1 result; the replayer runs the operation and the calculator and compares both with each other and with the specification; the metadata invariant is evaluated on every tensor produced by every check",
-            "note": "bounded (rank<=4, dims<=5)"},
+            "note": "bounded (rank<=4, dims<=5; slice calculators: axes<=7, steps<=5)"},
     "C06": {"ref": "DESIGN.md 4 C06",
-            "technique": "TLC-enumerated operand structures (MC_elem over Tensor.tla/Layouts.tla) replayed with every operator, element type and value palette",
+            "technique": "TLC-enumerated operand structures (MC_elem over Tensor.tla/Layouts.tla; 12 operand layouts, scalar as constant or rank-0 tensor, chained second call) replayed with every operator, element type and value palette",
             "text": "bounded exhaustive model checking of the structure (which elements are combined, in which operand order, result shape, refusals) for every operand layout combination; each structure is executed on the real library for every operator x element type x palette and compared coordinate by coordinate with the term the specification assigns, evaluated with Go's operator",
             "note": "bounded (rank<=4, dims<=3); scalar semantics delegated to Go's operators as the property states"},
     "C07": {"ref": "DESIGN.md 4 C07",
@@ -909,9 +909,9 @@ LEVELS = {
             "text": "bounded exhaustive model checking of which elements are folded into which result position for every axis set, order of listing and operand layout; folds evaluated with Go's operators (integer sums wrap), first-index rule for arg-reductions",
             "note": "bounded (rank<=4, dims<=3); refusal accepted"},
     "C09": {"ref": "DESIGN.md 4 C09",
-            "technique": "TLC-enumerated product structures (MC_linalg over ProductSpec/ContractCells in Tensor.tla) replayed for the float and complex element types",
+            "technique": "TLC-enumerated product structures (MC_linalg over ProductSpec/ContractCells in Tensor.tla; operand and destination layouts, re-laid-out reuse tensors, chained products, rank-4 contractions) replayed for the float and complex element types",
             "text": "bounded exhaustive model checking of which operand elements are multiplied and summed into which result element, for every operand shape combination, contraction axis choice, operand layout and option mode in bounds",
-            "note": "bounded (dims<=3, thorough 4; rank<=3 for contractions); refusal accepted; rounding tolerance n*eps*sum|x*y| for non-integer data"},
+            "note": "bounded (dims<=3, thorough 4; rank<=4 for contractions); refusal accepted; rounding tolerance n*eps*sum|x*y| for non-integer data"},
     "C10": {"ref": "DESIGN.md 4 C10",
             "technique": "TLC-enumerated assembly structures (MC_assemble over ConcatT/StackT/RepeatT in Tensor.tla) replayed for every element size",
             "text": "bounded exhaustive model checking of the placement of every operand element in the result for every operand count, axis, operand layout and repeat-count vector in bounds; must-reject inputs (non-fitting shapes, wrong number of counts) included",
@@ -941,7 +941,7 @@ LEVELS = {
             "text": "bounded exhaustive model checking: one integer interpretation of every operation family and kernel variant, computed by TLC, must be delivered by every element type that can represent it; exhaustiveness over the generated kernels is measured as function coverage (go build -cover) and written to the evidence",
             "note": "palette of small positive integers exactly representable in all numeric types; bounded shapes"},
     "C19": {"ref": "DESIGN.md 4 C19",
-            "technique": "trace validation: random operation histories recorded from the real library (every live tensor observed after every call, pool hooks, caller slices) checked by TLC against spec/Trace.tla",
+            "technique": "trace validation: random operation histories recorded from the real library (shape, elements and mask of every live tensor observed after every call, hook events of the ints / option / header / tensor-struct pools, caller slices) checked by TLC against spec/Trace.tla; plus TLC-enumerated histories replayed with every live tensor and caller slice compared",
             "text": "model checking of recorded behaviours: every line of every recorded history must be a step of the specification and the observation of ALL live tensors must equal the specification's state, so a corruption of a tensor other than the destination, of a caller's slice, or a pool double-return is rejected at the line where it happens",
             "note": "randomised histories (seeded), not exhaustive; integer-valued data; inputs of listed findings are not generated"},
     "C18": {"ref": "DESIGN.md 4 C18",
